@@ -6,7 +6,9 @@ Local Open Scope Z_scope.
 
 (* dictionary keys: json.dumps accepts str, int, float, bool, None keys (and writes them as strings); any
    other key (a tuple, ...) makes it raise TypeError *)
-Inductive key := KS (s : string) | KI (z : Z) | KF (tag : Z) | KB (b : bool) | KNone | KOther (id : Z).
+(* KSub = an instance of a proper subclass of str used as a key (np.str_("pi"), class MyStr(str)): json.dumps writes its
+   text, json.loads gives back a plain str *)
+Inductive key := KS (s : string) | KI (z : Z) | KF (tag : Z) | KB (b : bool) | KNone | KOther (id : Z) | KSub (cls : Z) (s : string).
 
 (* Python values as far as JSON is concerned.  Floats are tags (no float arithmetic is involved).
    JSub = an instance of a proper subclass of float / int / str (np.float64, an IntEnum member, ...): json.dumps
@@ -48,6 +50,7 @@ Definition key_text (k : key) : string :=
   | KB false => "false"
   | KNone => "null"
   | KOther _ => "?"
+  | KSub _ s => s
   end.
 
 Fixpoint jnorm (v : jv) : jv :=
@@ -68,6 +71,7 @@ Definition key_eqb (a b : key) : bool :=
   | KB x, KB y => Bool.eqb x y
   | KNone, KNone => true
   | KOther x, KOther y => Z.eqb x y
+  | KSub c x, KSub c' y => Z.eqb c c' && String.eqb x y
   | _, _ => false
   end.
 
